@@ -401,4 +401,15 @@ theorem processSegments_spec (segSize maxSeg : Nat) (fn : ProcFn) (hs : 0 < segS
   · simp
   · right; rfl
 
+
+/-- No call at all, and a clean end, for a non-failing source that delivers nothing. -/
+theorem processSegments_nil (segSize maxSeg : Nat) (hs : 0 < segSize) (fn : ProcFn) (r : Reader)
+    (heof : r.term = .eof) (hempty : r.stream = []) :
+    processSegments segSize maxSeg fn r = ⟨[], [], .ok⟩ := by
+  have hfails : r.term.fails = false := by rw [heof]; rfl
+  have hconf : confirmed segSize r none = [] := by
+    simp [confirmed, visible, hfails, hempty, segments_nil]
+  rw [processSegments_spec segSize maxSeg fn hs r, hconf, runSegs_nil]
+  simp [finOf, hfails]
+
 end Kit.Enc
